@@ -2,9 +2,11 @@ package props
 
 import (
 	"fmt"
+	"github.com/tyler-sommer/stick"
 	"math/rand"
 	"sort"
 	"strings"
+	"verifharness/mon"
 
 	"verifharness/fw"
 	"verifharness/gen"
@@ -131,12 +133,16 @@ func c14Templates() map[string][]gen.Node {
 		"concat-compare":  e(bin("==", bin("~", nm("s"), str("x")), str("abcx"))),
 		"logic-words":     e(bin("or", bin("and", nm("t"), &gen.EUn{Op: "not", X: nm("f")}), nm("f"))),
 		// names that begin with an operator word, next to word operators
-		"operator-like-names":   e(bin("or", bin("and", &gen.EUn{Op: "not", X: nm("index")}, bin("in", nm("inx"), nm("order"))), bin("or", &gen.ETest{X: nm("isle"), Not: true, Test: "pos"}, bin("starts with", nm("nota"), nm("andy"))))),
-		"not-paren":             e(&gen.EUn{Op: "not", X: &gen.EGroup{X: nm("f")}}),
-		"in-array":              e(bin("in", nm("n"), &gen.EArr{Els: []gen.Expr{num(1), num(3)}})),
-		"not-in-range":          e(bin("not in", num(5), &gen.EGroup{X: bin("..", num(1), num(3))})),
-		"starts-ends-matches":   e(bin("and", bin("starts with", nm("s"), str("a")), bin("or", bin("ends with", nm("s"), str("c")), bin("matches", nm("s"), str("^a"))))),
-		"bitwise":               e(bin("b-or", bin("b-and", num(6), num(3)), bin("b-xor", num(1), num(8)))),
+		"operator-like-names": e(bin("or", bin("and", &gen.EUn{Op: "not", X: nm("index")}, bin("in", nm("inx"), nm("order"))), bin("or", &gen.ETest{X: nm("isle"), Not: true, Test: "pos"}, bin("starts with", nm("nota"), nm("andy"))))),
+		"not-paren":           e(&gen.EUn{Op: "not", X: &gen.EGroup{X: nm("f")}}),
+		"in-array":            e(bin("in", nm("n"), &gen.EArr{Els: []gen.Expr{num(1), num(3)}})),
+		"not-in-range":        e(bin("not in", num(5), &gen.EGroup{X: bin("..", num(1), num(3))})),
+		"starts-ends-matches": e(bin("and", bin("starts with", nm("s"), str("a")), bin("or", bin("ends with", nm("s"), str("c")), bin("matches", nm("s"), str("^a"))))),
+		"bitwise":             e(bin("b-or", bin("b-and", num(6), num(3)), bin("b-xor", num(1), num(8)))),
+		// a sign directly in front of a literal is still an operator: what follows the literal belongs to the literal
+		"sign-then-filter": {tx("["), pr(&gen.EFilter{X: &gen.EUn{Op: "-", X: num(5)}, Name: "wrap"}), tx("]["), pr(bin("+", num(2), &gen.EFilter{X: &gen.EUn{Op: "-", X: num(3)}, Name: "inc", Args: []gen.Expr{num(4)}})), tx("]["),
+			pr(&gen.ETest{X: &gen.EUn{Op: "-", X: num(4)}, Test: "pos"}), tx("]["), pr(&gen.EFilter{X: &gen.EUn{Op: "+", X: &gen.ENum{Text: "2.5"}}, Name: "wrap", Args: []gen.Expr{&gen.EUn{Op: "-", X: num(1)}}}), tx("]["),
+			pr(&gen.EFilter{X: &gen.EUn{Op: "not", X: num(0)}, Name: "wrap"}), tx("]")},
 		"unary-minus":           e(bin("+", &gen.EUn{Op: "-", X: nm("n")}, &gen.EUn{Op: "+", X: num(2)})),
 		"ternary-nested":        e(&gen.ETern{C: nm("f"), A: str("a"), B: &gen.ETern{C: nm("t"), A: str("b"), B: str("c")}}),
 		"test-args":             e(&gen.ETest{X: num(9), Test: "divisible by", Args: []gen.Expr{num(3)}}),
@@ -230,7 +236,41 @@ func (p *c14) Init(tier string, seed int64) {
 	p.corpus = gen.Corpus()
 }
 
-func (p *c14) N() int { return p.nEnum + p.nRand }
+func (p *c14) N() int { return p.nEnum + p.nRand + len(c14LongTargets)*c14LongOffsets*2 }
+
+// Long templates. Whatever the parser or the tokeniser keep per token (a history, a look-ahead buffer) may be bounded
+// or compacted at some round number of tokens; the amount of white space decides which token of the template is
+// the one that crosses it. For every target T and every offset c the c-th token of a tail full of nested tags is
+// made token number T, once in the tight and once in the wide spelling of the same template.
+var c14LongTargets = []int{128, 256, 512, 1024, 2048, 4096, 6144, 8192, 16384}
+
+const c14LongOffsets = 40
+
+func c14LongCase(j int) (src, want, desc string) {
+	wide := j%2 == 1
+	j /= 2
+	c := j % c14LongOffsets
+	T := c14LongTargets[j/c14LongOffsets]
+	item, per := "{{a}}", 3
+	tail := "{%for i in s%}{%if t%}({{i}}){%else%}-{%endif%}{%set q%}{{i}}{%endset%}{%filter up%}{{q}}{%endfilter%}{%endfor%}{%block b%}B{%if t%}{{a}}{%endif%}{%endblock%}{%if f%}n{%elseif t%}{%for k,v in s%}{{k}}{%endfor%}{%endif%}"
+	if wide {
+		item, per = "{{ a }}", 5
+		tail = "{% for i in s %}{% if t %}({{ i }}){% else %}-{% endif %}{% set q %}{{ i }}{% endset %}{% filter up %}{{ q }}{% endfilter %}{% endfor %}{% block b %}B{% if t %}{{ a }}{% endif %}{% endblock %}{% if f %}n{% elseif t %}{% for k, v in s %}{{ k }}{% endfor %}{% endif %}"
+	}
+	n, r := (T-c)/per, (T-c)%per
+	var b, w strings.Builder
+	for k := 0; k < n; k++ {
+		b.WriteString(item)
+		w.WriteString("A")
+		if k < r {
+			b.WriteString(".") // a text token: shifts everything behind it by one
+			w.WriteString(".")
+		}
+	}
+	b.WriteString(tail)
+	w.WriteString("(1)1(2)2BA01")
+	return b.String(), w.String(), fmt.Sprintf("long/T=%d/c=%d/wide=%v", T, c, wide)
+}
 
 // variant decodes variant index j of unit u into a policy.
 func (u *c14unit) variant(j int) (*vecPolicy, string) {
@@ -294,6 +334,10 @@ func (p *c14) randProgram(i int) *Program {
 }
 
 func (p *c14) Describe(i int) interface{} {
+	if i >= p.nEnum+p.nRand {
+		src, _, desc := c14LongCase(i - p.nEnum - p.nRand)
+		return map[string]interface{}{"kind": desc, "bytes": len(src)}
+	}
 	if i < p.nEnum {
 		ui := searchOffs(p.offs, i)
 		u := p.units[ui]
@@ -350,6 +394,19 @@ func isParseErr(err error) bool {
 }
 
 func (p *c14) Run(i int) (res fw.Result) {
+	if i >= p.nEnum+p.nRand {
+		src, want, desc := c14LongCase(i - p.nEnum - p.nRand)
+		env, _ := mon.NewCoreEnv(map[string]string{"main": src})
+		out, err, pan, steps := execNoPanic(env, "main", map[string]stick.Value{"a": "A", "s": []int{1, 2}, "t": true, "f": false}, 0)
+		res.Evals++
+		res.UniqueNT = 1
+		res.AddObs("exec_steps", steps)
+		res.AddClass("long-template")
+		if pan != nil || err != nil || out != want {
+			res.Fail("meaning-changed", "c14:"+desc, fmt.Sprintf("%s (%d bytes): renders %q (error %v, panic %v), want %q", desc, len(src), clip(out, 120), err, pan, clip(want, 120)), map[string]interface{}{"source_head": clip(src, 200), "source_tail": src[len(src)-200:]})
+		}
+		return
+	}
 	if i < p.nEnum {
 		ui := searchOffs(p.offs, i)
 		u := p.units[ui]
@@ -371,7 +428,7 @@ func (p *c14) Run(i int) (res fw.Result) {
 }
 
 func (p *c14) Rule() string {
-	return fmt.Sprintf("one template per tag kind and expression form (%d forms: if/elseif/else, for with key/cond/else, set, set-capture, filter section, block, macro+call, import, from with alias, include with/only/expression name, embed with/only/override, do, verbatim, extends+use with aliases, and 27 expression forms covering every operator family incl. the alphabetic ones, unary, nested conditional, tests with arguments, attribute/bracket access, filter chains, calls, nested arrays, hashes with bare/quoted/computed keys, empty lists, interpolation (also with string literals inside the interpolated expressions), groups, strings needing either quote), each placed at top level and inside a for, block, if and set-capture body after a text run (the push-back path). For each: exhaustive single-boundary sweep (every token boundary x 7 whitespace strings: none-where-tokens-cannot-merge, blank, TAB, LF, CRLF, CR, mixed run), pairwise sweep (7x7 values on boundary pairs: all pairs thorough, adjacent and sampled pairs quick), uniform spellings, and the quote / trailing-comma / trim-marker / combined variants; plus seeded random programs from the generator x random re-spellings. Oracle (metamorphic): the re-spelling renders the same bytes, the same error kind and the same callback log as the canonical spelling. Non-trivial = placement inside a nested body; enumerated variants are distinct by construction.", len(c14Templates())+1)
+	return "long templates: for T in {128 .. 16384} and c in 0..39 the c-th token of a tail of nested tags is made token number T (a run of prints in front, text tokens as shifters), in a spelling without and one with blanks inside the delimiters - the output is known in advance; " + fmt.Sprintf("one template per tag kind and expression form (%d forms: if/elseif/else, for with key/cond/else, set, set-capture, filter section, block, macro+call, import, from with alias, include with/only/expression name, embed with/only/override, do, verbatim, extends+use with aliases, and 27 expression forms covering every operator family incl. the alphabetic ones, unary, nested conditional, tests with arguments, attribute/bracket access, filter chains, calls, nested arrays, hashes with bare/quoted/computed keys, empty lists, interpolation (also with string literals inside the interpolated expressions), groups, strings needing either quote), each placed at top level and inside a for, block, if and set-capture body after a text run (the push-back path). For each: exhaustive single-boundary sweep (every token boundary x 7 whitespace strings: none-where-tokens-cannot-merge, blank, TAB, LF, CRLF, CR, mixed run), pairwise sweep (7x7 values on boundary pairs: all pairs thorough, adjacent and sampled pairs quick), uniform spellings, and the quote / trailing-comma / trim-marker / combined variants; plus seeded random programs from the generator x random re-spellings. Oracle (metamorphic): the re-spelling renders the same bytes, the same error kind and the same callback log as the canonical spelling. Non-trivial = placement inside a nested body; enumerated variants are distinct by construction.", len(c14Templates())+1)
 }
 
 func (p *c14) Assumptions() []string {
